@@ -47,7 +47,7 @@ pub fn def() -> PropDef {
     PropDef {
         id: "C14",
         level: "exploration",
-        rule: "agg: generated corpora (0-200 documents; i64/u64/f64/string/ip/date fast fields, missing and multi-valued, negative and fractional values, values on bucket boundaries, 5-200 distinct terms, optional deletes) x generated requests (filtering query + aggregation tree of depth <= 3 over all 16 variants with generated parameters) x partitions (1-6 segments; 1-4 separate indexes merged with merge_fruits in generated order / grouping with postcard round trips). An evaluation is one (corpus, request). Non-trivial = the request has a bucket aggregation with a sub-aggregation, the bucketed field has missing or multi-valued entries among the matching documents, and at least two segments differ in their set of bucket-field values; distinct by (corpus, request).",
+        rule: "agg: generated corpora (0-200 documents; i64/u64/f64/string/ip/date fast fields, missing and multi-valued, negative and fractional values, values on bucket boundaries, 5-200 distinct terms, optional deletes) x generated requests (filtering query + aggregation tree of depth <= 3 over all 16 variants with generated parameters) x partitions (1-6 segments; 1-4 separate indexes merged with merge_fruits in generated order / grouping with postcard round trips). An evaluation is one (corpus, request). Non-trivial = the request has a bucket aggregation with a sub-aggregation, the bucketed field has missing or multi-valued entries among the matching documents, and at least two segments differ in their set of bucket-field values; distinct by (corpus, request). flush_batches: 100-320 terms in round robin followed by a tail of > 2048 documents of the first term in one segment; terms > {top_hits(size 1, sort by value desc), percentiles[50]} against a direct computation per term (document count, largest value, median within 2 %).",
         assumptions: vec![
             "reference semantics are taken from the rustdoc of src/aggregation/** (and the 0.26 changelog for the per-document de-duplication of term counts); undocumented details are not asserted: rendered range keys, order of equal-order-key term buckets, position of null metric values in a terms order, key order of ip/date term keys, zero-count term buckets of min_doc_count=0 below the top level or with deletes, percentiles only within the DDSketch 1% relative accuracy around the order statistics at rank p(n-1), cardinality exact up to 100 distinct values and within 10% beyond",
             "float metrics are compared with 1e-9 relative tolerance (variance-like values relative to sum_of_squares/count)",
